@@ -60,6 +60,8 @@ type World struct {
 	// Hold: packets for which Hold returns true are not deliverable (crashed receiver, ...).
 	Hold func(p *Packet) bool
 
+	// StepLimit, if positive, makes Loop return once that many big steps have been taken.
+	StepLimit int
 	// Optional returns scenario events that are never the default (Byzantine actions, faults):
 	// they are offered as alternatives after the deliveries.
 	Optional func() []Event
